@@ -9,13 +9,17 @@ LEVEL_TEXT = ("Lean theorems about the choice model (choice_converters.fetch / f
               "quoting; the starred set is the requested set under the three spellings (stars, single bare word, a+b+c), last "
               "occurrence deciding; an unknown selected name raises Sorry carrying all alternatives; extraction returns at most "
               "one name (single) and never none/empty when .optional=False. The model is tied to /repo by a correspondence "
-              "run of fetch+extract on one choice definition; the oracle evaluates the clauses on the implementation.")
+              "run of fetch+extract on one choice definition and, for merges with several matching sources (sources=[...], "
+              "repeated assignments, re-opened scopes, commented-out assignments), by a correspondence run of the whole-fetch "
+              "model; the oracle evaluates the clauses on the implementation: every matching source is subject to the error "
+              "clause, the last active one decides the selection.")
 LEVEL_NOTE = ("Alternatives equal up to case (finding D19) are outside the theorems' hypothesis and visited in their own stream. "
               "str.lower is modelled as ASCII lower-casing (alternatives are ASCII).")
 TECHNIQUE = "Lean 4 theorems on the choice fetch/extract model + differential correspondence + clause-by-clause oracle"
 RULE = ("alternative lists (2..5 names, any default stars, quoted or not) x single/multi x optional {None,True,False} x source "
         "spellings (starred subsets, bare single names in any case, a+b forms, None, Auto, unknown names starred or not, quoted "
-        "names, repeated names); non-trivial = the source selects or names something; distinct = (master, source)")
+        "names, repeated names) x 1..4 matching sources per parameter in four layouts; non-trivial = the source selects or "
+        "names something; distinct = (master, source[s])")
 ASSUMPTIONS = ["alternative names are identifiers or quoted strings without '*' or '+'"]
 NAMES = ["a", "b", "c", "dd", "Ee", "x_y", "none1", "q r", "z.9"]
 
@@ -40,8 +44,8 @@ def master_text(rng, dup_case=False):
     return text, names, multi, opt
 
 
-def source_text(rng, names):
-    pool = names + ["zz", "A", "B", "none", "None", "Auto", "auto", "", "q"]
+def source_text(rng, names, extra=None):
+    pool = names + (["zz", "A", "B", "none", "None", "Auto", "auto", "", "q"] if extra is None else extra)
     k = rng.random()
     if k < 0.1:
         return rng.choice(["None", "none", "Auto", "auto", "NONE"])
@@ -227,6 +231,145 @@ def run(ctx):
             flush(ctx, cases, reqs, impls)
             cases, reqs, impls = [], [], []
     flush(ctx, cases, reqs, impls)
+    run_multi(ctx)
+
+
+# ---- several matching sources for one choice parameter ("the last matching source" clause) ----------------------------
+
+MULTI_FORMS = ["sources", "repeat", "scoped", "reopened"]
+
+
+def multi_case(rng):
+    """one choice parameter, 2..4 source assignments for it (each a spelling of `source_text`), some of them commented
+    out, laid out as separate entries of sources=[...], as repeated assignments in one source, below a scope (dotted
+    and braced spellings) or in a scope that is opened twice. Returns master text, parameter path, list of source texts,
+    and the (value text, active) records in matching order."""
+    mtext, names, multi, opt = master_text(rng)
+    form = rng.choice(MULTI_FORMS)
+    k = rng.choice([2, 2, 2, 3, 3, 4])
+    recs = []
+    mostly_valid = rng.random() < 0.55  # otherwise nearly every merge has some source that is refused
+    for _ in range(k):
+        extra = [] if mostly_valid and rng.random() < 0.85 else None
+        recs.append((source_text(rng, names, extra), rng.random() >= 0.15))
+    if not any(a for _, a in recs) and rng.random() < 0.8:
+        recs[rng.randrange(k)] = (recs[0][0], True)
+
+    def assign(path, rec):
+        return "%s%s = %s\n" % ("" if rec[1] else "!", path, rec[0])
+    if form == "sources":
+        path = "v"
+        srcs = [assign("v", r) for r in recs]
+    elif form == "repeat":
+        path = "v"
+        cut = rng.randint(1, k)  # the first `cut` assignments in one source, the rest in a second one (if any)
+        srcs = ["".join(assign("v", r) for r in recs[:cut])] + (["".join(assign("v", r) for r in recs[cut:])] if cut < k else [])
+    else:
+        path = "s.v"
+        mtext = "s {\n%s}\n" % mtext
+        if form == "scoped":
+            srcs = [rng.choice([assign("s.v", r), "s {\n%s}\n" % assign("v", r)]) for r in recs]
+        else:
+            srcs = ["".join("s {\n%s}\n" % assign("v", r) for r in recs)]
+    return mtext, path, names, multi, opt, form, srcs, recs
+
+
+def is_plain(words, what):
+    return len(words) == 1 and words[0].quote_token is None and words[0].value.lower() == what
+
+
+def selects_unknown(names, opt, words):
+    """the error clause of the statement applies to this source: a name it selects is not an alternative"""
+    if is_plain(words, "auto") or (is_plain(words, "none") and opt is not False):
+        return False
+    return requested(names, words) is None
+
+
+def multi_oracle(mdef, names, multi, opt, active, result, err):
+    """clauses of the statement for a merge in which `active` (word lists, matching order) are the matching sources:
+    every source is subject to the error clause, the last one decides the selection"""
+    unknown = [i for i, w in enumerate(active) if selects_unknown(names, opt, w)]
+    if err is None:
+        if unknown:
+            return ("matching source #%d of %d (%r) selects a name that is not an alternative, yet no error was raised "
+                    "(result %r)" % (unknown[0] + 1, len(active), " ".join(str(w) for w in active[unknown[0]]),
+                                     [w.value for w in result.words]))
+        if not active:
+            if [(w.value, w.quote_token) for w in result.words] != [(w.value, w.quote_token) for w in mdef.words]:
+                return "no active matching source, yet the result differs from the master"
+            return None
+        return oracle(mdef, names, multi, opt, active[-1], result, None)
+    if type(err) is RuntimeError:
+        return None
+    if not isinstance(err, freephil.Sorry):
+        return "raised %s" % type(err).__name__
+    whats = [oracle(mdef, names, multi, opt, w, None, err) for w in active]
+    if not active or all(whats):
+        return whats[0] if whats else "refused without any active matching source"
+    return None
+
+
+def run_multi(ctx):
+    import random
+    from props import _fetch
+    rng = random.Random("C11-multi-%d-%s" % (ctx.seed, ctx.mode))
+    n = ctx.scale(1500, 40000, 8000)
+    cases, reqs, impls, fails = [], [], [], []
+
+    def flush_multi():
+        if not reqs:
+            return
+        answers = [None] * len(reqs)
+        if ctx.mode != "impl-only":
+            answers = ctx.corr("choice_fetch_multi", cases, reqs, impls, proj=lambda r: [r[0], r[2]])
+        for c, a, i, f in zip(cases, answers, impls, fails):
+            if f:
+                agrees = None
+                if a is not None and a[0] not in ("unsupported", "parse-failed", "type-failed"):
+                    agrees = (a[0] == i[0]) if "ok" not in (a[0], i[0]) else (a[0] == i[0] and [a[1][0], a[1][2]] == [i[1][0], i[1][2]])
+                ctx.fail(c, f, model_violates=agrees)
+        del cases[:], reqs[:], impls[:], fails[:]
+    for i in range(n):
+        if ctx.time_left() < 25:
+            ctx.notes.append("multi-source stream stopped early on time budget")
+            break
+        mtext, path, names, multi, opt, form, srcs, recs = multi_case(rng)
+        try:
+            m = freephil.parse(input_string=mtext)
+            ss = [freephil.parse(input_string=s) for s in srcs]
+            wl = [freephil.parse(input_string="v = %s\n" % t).objects for t, _ in recs]
+        except BaseException:
+            ctx.count("multi_unparseable")
+            continue
+        if any(len(o) != 1 or not o[0].is_definition for o in wl):
+            continue
+        active = [o[0].words for o, (_, a) in zip(wl, recs) if a]
+        mdef = m.get(path).objects[0]
+        ctx.case(("multi", mtext, tuple(srcs)), nontrivial=bool(active))
+        ctx.count("multi_cases")
+        ctx.count("multi_form_" + form)
+        ctx.count("multi_active_%d" % len(active))
+        unknown = [j for j, w in enumerate(active) if selects_unknown(names, opt, w)]
+        if unknown and unknown[-1] < len(active) - 1:
+            ctx.count("multi_unknown_in_earlier_source")
+        err = result = None
+        try:
+            result = m.fetch(sources=ss).get(path).objects[0]
+        except BaseException as e:
+            if isinstance(e, (KeyboardInterrupt, MemoryError)):
+                raise
+            err = e
+        ctx.count("multi_outcome_" + ("ok" if err is None else type(err).__name__))
+        f = multi_oracle(mdef, names, multi, opt, active, result, err)
+        cases.append({"master": mtext, "sources": srcs, "form": form})
+        fails.append(f)
+        reqs.append(_fetch.fetch_req(mtext, srcs))
+        impls.append(_fetch.fetch_impl(m, ss))
+        if i % 400 == 0:
+            ctx.sample({"master": mtext, "sources": srcs, "result": None if result is None else result.as_str()})
+        if len(reqs) >= 2000:
+            flush_multi()
+    flush_multi()
 
 
 def outcome_key(ia):
@@ -297,12 +440,36 @@ def flush(ctx, cases, reqs, impls):
 
 def finding_still_fails(f):
     w = f["witness"]
-    m = freephil.parse(input_string=w["master"])
-    r = m.fetch(source=freephil.parse(input_string=w["source"])).objects[0]
+    try:
+        m = freephil.parse(input_string=w["master"])
+        r = m.fetch(source=freephil.parse(input_string=w["source"])).objects[0]
+    except Exception:  # a tree on which the witness does not even run: the finding covers nothing there
+        return False
     return [x.value for x in r.words] == w["observed"]
 
 
 def replay(payload):
+    """re-evaluates the oracle on the stored input (single-source and multi-source cases)"""
     c = payload["failure"]["case"]
     print(c)
-    return False
+    if "master" not in c or ("source" not in c and "sources" not in c) or "order" in c:
+        return False
+    m = freephil.parse(input_string=c["master"])
+    path = "s.v" if m.objects[0].is_scope else "v"
+    mdef = m.get(path).objects[0]
+    names = [unstar(w.value) for w in mdef.words]
+    multi = mdef.type.multi
+    ss = [freephil.parse(input_string=t) for t in c.get("sources", ["v = %s\n" % c.get("source")])]
+    active = [d.object.words for s_ in ss for d in s_.all_definitions()]  # active definitions, matching order
+    err = result = None
+    try:
+        result = m.fetch(sources=ss).get(path).objects[0]
+    except BaseException as e:
+        err = e
+    if "sources" in c:
+        f = multi_oracle(mdef, names, multi, mdef.optional, active, result, err)
+    else:
+        f = oracle(mdef, names, multi, mdef.optional, active[0], result, err)
+    print("outcome:", result.as_str() if err is None else "%s: %s" % (type(err).__name__, err))
+    print("oracle:", f or "all clauses hold")
+    return f is None
